@@ -100,6 +100,8 @@ def main(argv=None):
         s.setdefault("tier", tier)
     timeout = getattr(check, "TIMEOUT", {"quick": 600, "thorough": 7200})[tier]
     hashseed = getattr(check, "HASHSEED", 0)
+    if hashseed == "varied":
+        hashseed = 0
 
     agg = Aggregate()
     shard_walls = []
